@@ -60,6 +60,10 @@ def run_property(pid, tier, repo, seed):
     finally:
         shutil.rmtree(workdir, ignore_errors=True)
 
+    selftest = None
+    if tier == 'thorough' and os.path.abspath(repo) == '/repo':
+        selftest = run_seeded(pid)
+
     known = core.load_known()
     open_keys = {}
     for k in known.get('open', []):
@@ -121,6 +125,7 @@ def run_property(pid, tier, repo, seed):
             'unsummarised_callees': sorted(ctx.stats['unsummarised']),
             'samples': ctx.samples or [i.as_dict() for i in ctx.instances[:5]],
             'known_findings_matched': [k for k, _ in known_hit],
+            'seeded_variants': selftest,
         },
         'assumptions': sorted(ctx.assumptions) + ['rustc nightly MIR at mir-opt-level=0 is the meaning of the source', '64-bit usize'],
         'wall_s': round(time.time() - t0, 2),
@@ -132,6 +137,56 @@ def run_property(pid, tier, repo, seed):
     print('%s: %d rule instances, %d obligations (%d discharged), %d new violations, %d known findings, %.1fs' % (
         pid, n_inst, ctx.stats['obligations'], ctx.stats['discharged'], len(new_viol), len(known_hit), time.time() - t0))
     return exit_code
+
+
+def run_seeded(pid):
+    """thorough tier: every seeded variant of this property (selftest/variants.py and seeded/<name>/patch.diff) is applied
+    to a scratch copy of /repo and the quick check must report a violation there; a miss is a defect of the checker and is
+    recorded in the evidence (it does not change the verdict on /repo)"""
+    import subprocess
+    from concurrent.futures import ThreadPoolExecutor
+    sys.path.insert(0, os.path.join(VERIF, 'selftest'))
+    sys.path.insert(0, os.path.join(VERIF, 'tools'))
+    import variants as V
+    import selftest as ST
+    vs = [v for v in V.V if pid in v['props']]
+    jobs = [dict(v, props=[pid]) for v in vs]
+    sdir = os.path.join(VERIF, 'seeded')
+    patches = []
+    if os.path.isdir(sdir):
+        for name in sorted(os.listdir(sdir)):
+            mp = os.path.join(sdir, name, 'meta.json')
+            pp = os.path.join(sdir, name, 'patch.diff')
+            if os.path.exists(mp) and os.path.exists(pp):
+                try:
+                    meta = json.load(open(mp))
+                except Exception:
+                    continue
+                if pid in meta.get('detected_by', []) or (pid == meta.get('property') and meta.get('detected_by') is None):
+                    patches.append((name, pp))
+
+    def run_patch(item):
+        name, pp = item
+        td = tempfile.mkdtemp(prefix='seeded-')
+        try:
+            for f in ('Cargo.toml', 'Cargo.lock'):
+                shutil.copy(os.path.join('/repo', f), td)
+            shutil.copytree('/repo/src', os.path.join(td, 'src'))
+            r = subprocess.run(['patch', '-p1', '-s', '-i', pp], cwd=td, stdout=subprocess.PIPE, stderr=subprocess.STDOUT, text=True)
+            if r.returncode != 0:
+                return name, 'no-apply'
+            r = subprocess.run([os.path.join(VERIF, 'check'), pid, '--tier', 'quick', '--repo', td], stdout=subprocess.PIPE, stderr=subprocess.STDOUT, text=True)
+            if r.returncode == 2:
+                return name, 'no-compile'
+            return name, 'detected' if (r.returncode == 1 and 'VIOLATION' in r.stdout) else 'MISSED'
+        finally:
+            shutil.rmtree(td, ignore_errors=True)
+    with ThreadPoolExecutor(max_workers=8) as ex:
+        r1 = [(v['name'], res) for v, res, out in ex.map(ST.run_one, jobs)]
+        r2 = list(ex.map(run_patch, patches))
+    allr = r1 + r2
+    return {'variants': len(allr), 'detected': sum(1 for _, r in allr if r == 'detected'),
+            'missed': [n for n, r in allr if r == 'MISSED'], 'skipped': [(n, r) for n, r in allr if r in ('no-apply', 'no-compile')]}
 
 
 def explain(path):
